@@ -108,6 +108,11 @@ func main() {
 		exit(cmdReplay(os.Args[2:]))
 	case "selftest":
 		exit(cmdSelftest(os.Args[2:]))
+	case "gen-contexts":
+		for _, q := range contextSentences(c09TargetRules) {
+			fmt.Println(q)
+		}
+		exit(0)
 	case "gen-sentences":
 		_, ss := generateGrammarSentences("x")
 		for _, q := range ss {
